@@ -90,10 +90,10 @@ type Chain struct {
 	Halted    *Halt
 	// LastEndBlock is the response of the most recent EndBlock.
 	LastEndBlock abci.ResponseEndBlock
-	AppHash   []byte
-	Blocks    []BlockRecord
-	cur       *BlockRecord
-	Record    bool
+	AppHash      []byte
+	Blocks       []BlockRecord
+	cur          *BlockRecord
+	Record       bool
 
 	EthNonce map[string]uint64
 	LzNonce  map[uint64]uint64
